@@ -838,7 +838,7 @@ fn shrink(
 	let mut best_detail = Value::Null;
 	let mut steps = 0u32;
 	let budget = 250u32;
-	let deadline = Instant::now() + Duration::from_secs(240);
+	let deadline = Instant::now() + Duration::from_secs(180);
 	// confirm and fetch detail
 	let r = run_single(id, sname, idx, &best, cfg, timeout, false);
 	if let Some((_, d)) = r.iter().find(|(s, _)| s == sig)
@@ -849,6 +849,81 @@ fn shrink(
 	{
 		return (best, best_detail, 0);
 	}
+	// pass 1: shortest failing prefix (an exhausted choice vector decodes to
+	// the simplest alternatives, so truncation removes whole sub-structures)
+	let still_fails = |v: &[u32], steps: &mut u32| -> Option<Value> {
+		*steps += 1;
+		let r = run_single(id, sname, idx, v, cfg, timeout, false);
+		r.into_iter().find(|(s, _)| s == sig).map(|(_, d)| d)
+	};
+	{
+		let (mut lo, mut hi) = (0usize, best.len());
+		while lo < hi && Instant::now() < deadline
+		{
+			let mid = (lo + hi) / 2;
+			if let Some(d) = still_fails(&best[..mid], &mut steps)
+			{
+				hi = mid;
+				best_detail = d;
+			}
+			else
+			{
+				lo = mid + 1;
+			}
+		}
+		best.truncate(hi);
+	}
+	// pass 2: delete chunks, then zero single choices
+	let mut chunk = (best.len() / 2).max(1);
+	while chunk >= 1 && steps < 600 && Instant::now() < deadline
+	{
+		let mut i = 0;
+		let mut progressed = false;
+		while i + chunk <= best.len() && steps < 600 && Instant::now() < deadline
+		{
+			let mut cand = best.clone();
+			cand.drain(i..i + chunk);
+			if let Some(d) = still_fails(&cand, &mut steps)
+			{
+				best = cand;
+				best_detail = d;
+				progressed = true;
+			}
+			else
+			{
+				i += chunk;
+			}
+		}
+		if chunk == 1 && !progressed
+		{
+			break;
+		}
+		if !progressed || chunk > 1
+		{
+			chunk /= 2;
+		}
+		if chunk == 0
+		{
+			break;
+		}
+	}
+	let mut i = 0;
+	while i < best.len() && steps < 900 && Instant::now() < deadline
+	{
+		if best[i] != 0
+		{
+			let mut cand = best.clone();
+			cand[i] = 0;
+			if let Some(d) = still_fails(&cand, &mut steps)
+			{
+				best = cand;
+				best_detail = d;
+			}
+		}
+		i += 1;
+	}
+	return (best, best_detail, steps);
+	#[allow(unreachable_code)]
 	while steps < budget && Instant::now() < deadline
 	{
 		if !tree.simplify()
